@@ -372,23 +372,6 @@ func history(n int, steps int, faults bool, dir string, clientsPer []int, script
 	}
 	var deliver func(a, b int)
 	toggle := func(cl *client, ch int) {
-		if n >= 3 {
-			// the payload object of a broadcast is queued on every link of its source; a second
-			// broadcast coalescing on one link rewrites the object queued on the others (see F8b):
-			// such schedules are run by the dedicated scenario only
-			for b := 0; b < n; b++ {
-				if b != cl.node {
-					for {
-						_, bc := c.links[[2]int{cl.node, b}].Pending()
-						g, _ := c.links[[2]int{cl.node, b}].Pending()
-						if bc == 0 && !g {
-							break
-						}
-						deliver(cl.node, b)
-					}
-				}
-			}
-		}
 		t += 10
 		atomic.StoreInt64(&clock, t)
 		topic := []byte(c.key + "/" + chans[ch])
@@ -411,9 +394,6 @@ func history(n int, steps int, faults bool, dir string, clientsPer []int, script
 		record(vlib.App("EDeliver", vlib.N(uint64(a+1)), vlib.N(uint64(b+1))), "deliver")
 	}
 	gossip := func(a, b int) {
-		if g, _ := c.links[[2]int{a, b}].Pending(); g {
-			return // the live state onto a pending payload panics inside Merge (F9, C13): not scheduled
-		}
 		c.links[[2]int{a, b}].Send(c.nodes[a].svc.VerifSwarm().Gossip())
 		record(vlib.App("EGossip", vlib.N(uint64(a+1)), vlib.N(uint64(b+1))), "full-state")
 	}
@@ -434,6 +414,10 @@ func history(n int, steps int, faults bool, dir string, clientsPer []int, script
 			deliver(e.a, e.b)
 		case "gossip":
 			gossip(e.a, e.b)
+		case "online":
+			c.links[[2]int{e.a, e.b}].Send(c.nodes[e.a].svc.VerifSwarm().Gossip())
+			c.links[[2]int{e.b, e.a}].Send(c.nodes[e.b].svc.VerifSwarm().Gossip())
+			record(vlib.App("EOnline", vlib.N(uint64(e.a+1)), vlib.N(uint64(e.b+1))), "online")
 		case "offline":
 			t += 10
 			atomic.StoreInt64(&clock, t)
@@ -461,11 +445,6 @@ func history(n int, steps int, faults bool, dir string, clientsPer []int, script
 			b, p := pick2()
 			if offline[[2]int{b, p}] {
 				// the connection comes back: both sides queue their full state
-				la, _ := c.links[[2]int{b, p}].Pending()
-				lb, _ := c.links[[2]int{p, b}].Pending()
-				if la || lb {
-					continue
-				}
 				c.links[[2]int{b, p}].Send(c.nodes[b].svc.VerifSwarm().Gossip())
 				c.links[[2]int{p, b}].Send(c.nodes[p].svc.VerifSwarm().Gossip())
 				offline[[2]int{b, p}] = false
@@ -575,15 +554,16 @@ func main() {
 		}
 		sh.Add(t, h, fmt.Sprintf("%s/%d-brokers", class, n), true)
 	}
-	// the witnesses of the known findings (coq/Findings/C05.v), replayed on the real brokers
+	// the witness of the known finding (coq/Findings/C05.v) and the witness of the repaired F4 / F5
+	// (an unsubscribe and re-subscribe coalesced on the link), replayed on the real brokers
 	{
 		t, h := history(2, 0, true, filepath.Join(cfg.Out, "swarmF4"), []int{2, 1},
-			[]sev{{"toggle", 3, 2}, {"toggle", 3, 2}, {"deliver", 1, 0}})
-		sh.Add(t, h, "witness/F4-stale-add", true)
+			[]sev{{"toggle", 3, 2}, {"deliver", 1, 0}, {"toggle", 3, 2}, {"toggle", 3, 2}, {"deliver", 1, 0}, {"toggle", 3, 2}, {"deliver", 1, 0}})
+		sh.Add(t, h, "witness/F5-recount-repaired", true)
 		t, h = history(3, 0, true, filepath.Join(cfg.Out, "swarmF7"), []int{1, 1, 2},
 			[]sev{{"toggle", 4, 1}, {"deliver", 2, 0}, {"deliver", 2, 1}, {"toggle", 2, 1}, {"deliver", 1, 2}, {"deliver", 1, 0},
-				{"offline", 2, 1}, {"gossip", 2, 0}, {"deliver", 2, 0}})
-		sh.Add(t, h, "witness/F7-offline-tombstone", true)
+				{"offline", 2, 1}, {"online", 2, 1}})
+		sh.Add(t, h, "witness/F7-returning-peer", true)
 	}
 	sh.Finish("2-3 brokers with 1-2 subscribing clients each over channels a/b/ b/a/ c/ (the first two collide in the counters' hash code); schedules of 12-36 events: client subscribe / unsubscribe toggles, single-piece deliveries on random links (so queued payloads coalesce and arrive late), and in every third case periodic full-state gossip and peer offline / online; then quiescence (all links drained, two rounds of full-state exchange) and one publish per broker and channel; observed after every event: every broker's remote trie entries, replicated subscription entries, members and per-peer counters; non-trivial: all")
 }
